@@ -416,6 +416,6 @@ def run(res, tier):
                 "combinations; a case is non-trivial when the URI was accepted")
     std.run_standard(res, PID, tier, area="uri", build_impl=impl, gen_cases=gen_cases, oracle=oracle,
                      corr_name="UriModel vs src/anyp/Uri.cc, src/anyp/UriScheme.cc, src/anyp/Host.cc",
-                     gens=["charsets", "bytemaps", "uri"], n_quick=30000, n_thorough=300000, seed_salt=30, mutate=mutate,
+                     gens=["charsets", "bytemaps", "uri"], n_quick=20000, n_thorough=300000, seed_salt=30, mutate=mutate,
                      kind_fn=kind, nontrivial_fn=lambda c, o: c.startswith("uri.rt") and o.startswith("ok"),
                      model_blind=lambda c: not c.startswith("uri.rt"))
